@@ -1,6 +1,7 @@
 package harness
 
 import (
+	"sort"
 	"testing"
 
 	"pgregory.net/rapid"
@@ -127,6 +128,16 @@ func genC14(t *rapid.T) KeyCase {
 			h.toggle(d.Exit[rapid.IntRange(0, len(d.Exit)-1).Draw(t, "exitKey")])
 		} else {
 			h.toggle(keys[rapid.IntRange(0, len(keys)-1).Draw(t, "key")])
+		}
+		// auto-repeat of a held key (value 2), as the kernel delivers it: never a press
+		if len(h.down) > 0 && rapid.IntRange(0, 5).Draw(t, "repeat") == 0 {
+			var held []uint16
+			for c := range h.down {
+				held = append(held, c)
+			}
+			sort.Slice(held, func(a, b int) bool { return held[a] < held[b] })
+			c := held[rapid.IntRange(0, len(held)-1).Draw(t, "repeatKey")]
+			h.steps = append(h.steps, Step{T: "rep", Sub: h.sub[c], Code: c, Val: 2})
 		}
 	}
 	return KeyCase{D: d, Steps: h.steps, NoLogs: rapid.Bool().Draw(t, "nologs")}
